@@ -26,6 +26,7 @@ func init() { handlers["burst"] = burstCase }
 //	kind "receivers": one session, host connected, N receivers dial at once against --max-receivers-per-sender;
 //	                  admitted = receivers holding an open socket after the burst (each got its peer_list)
 //	kind "conns":     N peers (distinct sessions not needed) dial at once against --max-ws-connections
+//	kind "slots":     receivers racing for --max-receivers-per-sender, then further hosts: open sockets vs --max-ws-connections
 //	kind "rate":      N sequential POST /session as fast as possible against the per-IP create bucket
 type burstSpec struct {
 	Flags   []string `json:"flags"`
@@ -33,6 +34,7 @@ type burstSpec struct {
 	N       int      `json:"n"`
 	DelayMs int      `json:"delay_ms"`
 	Rounds  int      `json:"rounds"`
+	Extra   int      `json:"extra"` // kind "slots": how many further hosts try to connect
 }
 
 func postSession(base string, query string) (int, string, map[string]any) {
@@ -193,6 +195,90 @@ func burstCase(args []string) string {
 				}
 				time.Sleep(10 * time.Millisecond)
 			}
+			out["rounds_done"] = round + 1
+		case "slots":
+			// connection slots under refused racing receivers: one session with its host, N receivers dial at once against
+			// --max-receivers-per-sender (with the window widened some are refused only after the upgrade); whoever was admitted stays
+			// connected; then hosts of fresh sessions dial one after the other until two in a row are refused. Open sockets (peer_list
+			// received, not closed by the server) are counted against --max-ws-connections.
+			_, code, _, err := clienthttp.CreateSession(ctx, s.base, 0)
+			if err != nil {
+				out["create_err"] = err.Error()
+				return fin()
+			}
+			var open []*client
+			hostURL, _ := app.VerifBuildWebSocketURL(s.base, code, "host", "sender", 0)
+			host, err := dialClient(ctx, hostURL)
+			if err != nil {
+				out["host_dial_err"] = err.Error()
+				return fin()
+			}
+			open = append(open, host)
+			var wg sync.WaitGroup
+			var mu sync.Mutex
+			gate := make(chan struct{})
+			for i := 0; i < g.N; i++ {
+				wg.Add(1)
+				go func(i int) {
+					defer wg.Done()
+					u, _ := app.VerifBuildWebSocketURL(s.base, code, fmt.Sprintf("r%d-%d", round, i), "receiver", 0)
+					<-gate
+					cl, err := dialClient(ctx, u)
+					mu.Lock()
+					defer mu.Unlock()
+					if err != nil {
+						statuses = append(statuses, "refused-before-upgrade")
+						return
+					}
+					open = append(open, cl)
+				}(i)
+			}
+			close(gate)
+			wg.Wait()
+			refusedInRow := 0
+			for i := 0; i < g.Extra && refusedInRow < 2; i++ {
+				_, c2, _, err := clienthttp.CreateSession(ctx, s.base, 0)
+				if err != nil {
+					out["create_err"] = err.Error()
+					return fin()
+				}
+				u, _ := app.VerifBuildWebSocketURL(s.base, c2, fmt.Sprintf("h%d-%d", round, i), "sender", 0)
+				cl, err := dialClient(ctx, u)
+				if err != nil {
+					refusedInRow++
+					statuses = append(statuses, "host-refused")
+					continue
+				}
+				refusedInRow = 0
+				open = append(open, cl)
+			}
+			live := 0
+			for _, cl := range open {
+				if cl.waitFor(protocol.TypePeerList, 2*time.Second) != nil {
+					select {
+					case <-cl.done:
+						statuses = append(statuses, "closed-after-upgrade")
+					case <-time.After(50 * time.Millisecond):
+						live++
+					}
+				} else {
+					statuses = append(statuses, "closed-after-upgrade")
+				}
+			}
+			if live > maxAdmitted {
+				maxAdmitted = live
+			}
+			for _, cl := range open {
+				cl.c.Close()
+			}
+			deadline := time.Now().Add(3 * time.Second)
+			for time.Now().Before(deadline) {
+				if strings.Count(s.out.String(), "peer disconnected") >= strings.Count(s.out.String(), "peer connected") {
+					break
+				}
+				time.Sleep(10 * time.Millisecond)
+			}
+			time.Sleep(60 * time.Millisecond)
 			out["rounds_done"] = round + 1
 		case "rate":
 			t0 := time.Now()
